@@ -85,6 +85,7 @@ class Scenario(sc.SockWorld):
         self.nadv = 0
         self.accepted_conn = False
         self.stalled = False
+        self.nrefuse = 0
         self.resumed_at = None
 
     def kind(self, a):
@@ -128,6 +129,10 @@ class Scenario(sc.SockWorld):
             acts.append(("accept",))
             if self.p.get("stall"):
                 acts.append(("accept-stalled",))
+            if self.nrefuse < self.p.get("max_refuse", 0):
+                acts.append(("refuse",))         # this attempt fails; the next one is two seconds away
+        elif self.nrefuse and self.loop.next_deadline() is not None and not self.accepted_conn:
+            acts.append(("tick",))               # ... let the retry timer fire
         return acts
 
     def do(self, a):
@@ -141,6 +146,11 @@ class Scenario(sc.SockWorld):
         elif op == "accept":
             self.accepted_conn = True
             self.net.resolve(True)
+        elif op == "refuse":
+            self.nrefuse += 1
+            self.net.resolve(False)
+        elif op == "tick":
+            L.advance_to(L.next_deadline())
         elif op == "accept-stalled":
             self.accepted_conn = True
             self.stalled = True
@@ -162,7 +172,7 @@ class Scenario(sc.SockWorld):
         return None
 
     def fp_extra(self):
-        return super().fp_extra() + (self.nadv, self.accepted_conn, self.stalled, self.net.pause_next,
+        return super().fp_extra() + (self.nadv, self.accepted_conn, self.stalled, self.net.pause_next, self.nrefuse,
                                      None if self.resumed_at is None else round(self.resumed_at - self.loop.time(), 6))
 
 
@@ -431,7 +441,9 @@ def run(tier, seed, part=None):
                  ({"max_send": 5, "max_adv": 2, "pattern": "BBBBB"}, 8, 0),
                  ({"max_send": 4, "max_adv": 1, "pattern": "BBBB", "stall": True}, 8, 0),
                  ({"max_send": 12, "max_adv": 1, "pattern": "IIIIIIIIIBBB", "refuse_first": True}, 14, 0),
-                 ({"max_send": 3, "max_adv": 2, "pattern": "BBB", "refuse_first": True}, 6, 0)]
+                 ({"max_send": 3, "max_adv": 2, "pattern": "BBB", "refuse_first": True}, 6, 0),
+                 ({"max_send": 11, "max_adv": 1, "pattern": "IIIIIIIIIIB", "max_refuse": 1}, 15, 0),
+                 ({"max_send": 3, "max_adv": 2, "pattern": "BBB", "max_refuse": 1}, 8, 0)]
         cap = 45
     else:
         plans = [({"max_send": 12, "max_adv": 1, "pattern": "B" * 12}, 14, 0),
@@ -439,7 +451,9 @@ def run(tier, seed, part=None):
                  ({"max_send": 7, "max_adv": 4, "pattern": "B" * 7}, 12, 0),
                  ({"max_send": 6, "max_adv": 2, "pattern": "B" * 6, "stall": True}, 12, 0),
                  ({"max_send": 12, "max_adv": 2, "pattern": "IIIIIIIIBBBB", "refuse_first": True}, 15, 0),
-                 ({"max_send": 6, "max_adv": 3, "pattern": "B" * 6, "refuse_first": True}, 10, 0)]
+                 ({"max_send": 6, "max_adv": 3, "pattern": "B" * 6, "refuse_first": True}, 10, 0),
+                 ({"max_send": 12, "max_adv": 2, "pattern": "IIIIIIIIIIBB", "max_refuse": 1}, 17, 0),
+                 ({"max_send": 5, "max_adv": 3, "pattern": "B" * 5, "max_refuse": 2}, 12, 0)]
         cap = 300
     # scripted families first: each is a handful of complete executions in this process, and one of them (two clients
     # side by side) is the very thing that would make the explorer's own executions interfere with each other -
@@ -455,6 +469,6 @@ def run(tier, seed, part=None):
             params = dict(gen=gen, **extra)
             res = explorer.explore(SPEC, params, depth, dev, time_cap=cap, seed=seed, do_finish=False,
                                    label=f"at{gen}/{extra}/d{depth}")
-            chk.add_explorer(f"at{gen}/{extra['max_send']}sends/{extra['max_adv']}adv" + ("/stall" if extra.get("stall") else "") + ("/refused-first" if extra.get("refuse_first") else ""), SPEC, params, res, {"depth": depth, "deviations": dev, **extra})
+            chk.add_explorer(f"at{gen}/{extra['max_send']}sends/{extra['max_adv']}adv" + ("/stall" if extra.get("stall") else "") + ("/refused-first" if extra.get("refuse_first") else "") + ("/refusals" if extra.get("max_refuse") else ""), SPEC, params, res, {"depth": depth, "deviations": dev, **extra})
     chk.add_audit(SPEC, {"gen": 4, "max_send": 5, "max_adv": 2, "pattern": "BBBBB"}, 6, 0, limit=4000 if tier == "thorough" else 600)
     return chk.finish()
